@@ -574,6 +574,57 @@ func runC11(r *ev.Recorder) {
 		}
 	}
 
+	// a typed literal directly after `const a T =` / `var a T =`, the expression then continued:
+	// every literal keeps its conversion (it must stay a typed constant)
+	for _, v := range []any{int8(5), int64(7), uint8(9), uint32(3), float32(7), float32(0.5), complex64(2), uintptr(1), 7, 2.5, true} {
+		tn := reflect.TypeOf(v).String()
+		m := reflect.ValueOf(&jen.Statement{}).MethodByName(strings.ToUpper(tn[:1]) + tn[1:])
+		if !m.IsValid() {
+			continue
+		}
+		for _, kw := range []string{"const", "var"} {
+			st := jen.Id("a")
+			if kw == "const" {
+				st = jen.Const().Id("a")
+			} else {
+				st = jen.Var().Id("a")
+			}
+			reflect.ValueOf(st).MethodByName(strings.ToUpper(tn[:1]) + tn[1:]).Call(nil)
+			st.Op("=").Lit(v)
+			alone := jh.Raw(jen.Lit(v)).Out
+			for _, cont := range []bool{false, true} {
+				full := st.Clone()
+				want := kw + " a " + tn + " = " + alone
+				if cont && tn != "bool" {
+					full.Op("/").Lit(v)
+					want += " / " + alone
+				}
+				got := jh.Raw(full)
+				r.Eval(1)
+				r.Distinct(fmt.Sprintf("typed-decl-%s-%s-%v", kw, tn, cont))
+				if !got.OK() || strings.Join(strings.Fields(got.Out), " ") != strings.Join(strings.Fields(want), " ") {
+					r.Violate(ev.Violation{Signature: "c11:literal-after-typed-declaration:" + tn, What: fmt.Sprintf("%s a %s = Lit(%s %v) (continued: %v) renders %q, want %q", kw, tn, tn, v, cont, got, want),
+						Case: ev.JSON(c11Case{Type: "litfunc-stateful"}), Detail: "the literal's text depends on what precedes it"})
+				}
+			}
+		}
+	}
+
+	// one argument slice holding a nil entry spread into two constructs, the first rendered before
+	// the second is built: both hold exactly the literals of the slice
+	{
+		items := []jen.Code{jen.Lit(int8(-128)), nil, jen.Lit(2.5), jen.Lit(float32(0.1))}
+		a := jen.Index().Any().Values(items...)
+		first := jh.Raw(a)
+		b := jen.Index().Any().Values(items...)
+		second := jh.Raw(b)
+		r.Eval(2)
+		r.Distinct("nil-holding-slice-reused")
+		if first.Key() != second.Key() || !first.OK() {
+			r.Violate(ev.Violation{Signature: "c11:literals-of-a-reused-slice", What: fmt.Sprintf("Values(items...) renders %q; built again from the same slice after that render: %q", first, second), Case: ev.JSON(c11Case{Type: "litfunc-stateful"}), Detail: "rendering rewrote the caller's slice"})
+		}
+	}
+
 	// literals appended to statements built by Add(parts...) from ONE slice with spare capacity
 	{
 		vals := []any{int8(-128), uint8(255), 1.5, true, 7, complex64(1 + 2i), int64(9), "s"}
